@@ -9,7 +9,7 @@ MASKED_BACKENDS = ["asm", "c64", "c32"]
 
 def cfgs(tier):
     if tier == "quick":
-        return [Cfg(b, *t) for b in MASKED_BACKENDS for t in ((4, 2, 4), (3, 3, 3), (2, 1, 2))]
+        return [Cfg(b, *t) for b in MASKED_BACKENDS for t in ((4, 2, 4), (3, 3, 3), (2, 1, 2), (4, 4, 4))]
     return [Cfg(b, *t) for b in MASKED_BACKENDS for t in share_tuples()]
 
 
